@@ -115,7 +115,7 @@ func (x *fsExec) unprocessable() map[string]bool {
 	out := map[string]bool{}
 	blockedFrom := map[string]int{}
 	for _, s := range x.src {
-		if s.Kind == "insPart" {
+		if fsNeedsP1(s.Kind) {
 			if b, ok := blockedFrom[s.Stream]; !ok || s.Pack < b {
 				blockedFrom[s.Stream] = s.Pack
 			}
@@ -395,7 +395,7 @@ func (x *fsExec) check() (viol []sched.Violation, summary string, nontrivial boo
 					if failedOn[ref.Stream] {
 						sig = "C06/skipped-after-failure"
 					}
-					if s.Kind == "insPart" {
+					if fsNeedsP1(s.Kind) {
 						sig = "C06/skipped/unknown-partition"
 					}
 					add(rootSig(s, sig), "pack %d of stream %s was acknowledged (event %d) although message %s of pack %d of the same stream has never been acknowledged", ref.Pack, ref.Stream, e.N, s.ID, s.Pack)
@@ -442,7 +442,7 @@ func (x *fsExec) check() (viol []sched.Violation, summary string, nontrivial boo
 				}
 				for _, s := range byStream[ref.Stream] {
 					if s.Pack <= ref.Pack && s.Kind != "dropColl" && !acked[s.Key] && !gone(s) {
-						if s.Kind == "insPart" {
+						if fsNeedsP1(s.Kind) {
 							add(rootSig(s, "C06/checkpoint-past-failed/unknown-partition"), "checkpoint %s = %q (pack %d) written at event %d although message %s (pack %d), which could not be processed, lies before it", fk, id, ref.Pack, e.N, s.ID, s.Pack)
 							break
 						}
@@ -605,7 +605,7 @@ func (x *fsExec) check() (viol []sched.Violation, summary string, nontrivial boo
 							firstOfCurrent = e.First
 						}
 					}
-					if m.Coll == c.ID && m.Kind == "insPart" && s.Published[m.Stream] > m.Pack && firstOfCurrent <= m.Pack {
+					if m.Coll == c.ID && fsNeedsP1(m.Kind) && s.Published[m.Stream] > m.Pack && firstOfCurrent <= m.Pack {
 						if _, ok := owners[x.taskOfColl(c.ID)]; !ok {
 							owners[x.taskOfColl(c.ID)] = "unknown-partition"
 						}
@@ -1170,6 +1170,11 @@ func fsC06Scenarios(thorough bool) []*fsScenario {
 		sc = mk("unknown-partition")
 		sc.Colls[0].UnknownPart = true
 		sc.Colls[0].Shards[0].Script = fsTail([]fsPack{fpIns(1000), fpInsPart(1010), fpDel(1020)}, 1)
+		out = append(out, sc)
+		// the same for a bulk-insert (import) message, whose partition list cannot be mapped
+		sc = mk("unknown-partition-import")
+		sc.Colls[0].UnknownPart = true
+		sc.Colls[0].Shards[0].Script = fsTail([]fsPack{fpIns(1000), {Msgs: []fsMsg{{Kind: "impPart", Ms: 1010}}, TickMs: 1010, TickLg: 1}, fpDel(1020)}, 1)
 		out = append(out, sc)
 		if len(l.tasks) > 1 {
 			// one task's failure (reported more than once: the write path pauses from the sender and from the batch loop, a
